@@ -430,7 +430,8 @@ class FactoryFunctorPool(FunctorPool):
             self.verbose = verbose
 
         def run(self) -> None:
-            while not self.stop_event.is_set():
+            while True:
+                # every thread reads exactly one stop order (None), the replace requests sent before it are served
                 replace_id = self.pool._replace_queue.get()
                 if replace_id is None:
                     break
